@@ -74,6 +74,8 @@ func c04(c *ctx) {
 		}
 		if k < 2 {
 			w.tunnelNamedWhileBuffering([]string{"del", "release"}[k])
+		} else if k < 4 {
+			w.uplinkFarNamesTunnel([]string{"del", "release"}[k-2])
 		}
 		w.p4history(steps)
 		if k%2 == 0 {
@@ -125,6 +127,46 @@ func (w *world) tunnelNamedWhileBuffering(end string) {
 	}
 	if end == "del" {
 		if w.del(0, A.up, "buffering-session-naming-X").Cause == 1 {
+			A.dead = true
+		}
+	} else {
+		w.release(0)
+		A.dead = true
+		w.assoc(0)
+	}
+}
+
+// uplinkFarNamesTunnel: session A's UPLINK FAR (towards the core) carries an outer header creation naming gNB X (N9 style) while
+// session B forwards its downlink to X; B leaves (the last user of X's tunnel peer); A is then deleted (end "del") or its
+// association released. A takes no reference on the peer and must not need it.
+func (w *world) uplinkFarNamesTunnel(end string) {
+	mk := func(ulOhc bool) ([]sysh.PdrIE, []sysh.FarIE) {
+		ue, teid := w.nextUE, w.nextTEID
+		w.nextUE++
+		w.nextTEID += 3
+		pdrs := []sysh.PdrIE{{ID: 1, Prec: 100, Src: u8p(0), Teid: u32p3(0, teid, n3IP), UE: u32p2(2, ue), Ohr: u8p(0), Far: 1},
+			{ID: 2, Prec: 100, Src: u8p(1), UE: u32p2(2, ue), Far: 2}}
+		fars := []sysh.FarIE{{ID: 1, Act: 2, Fwd: &sysh.FwdIE{Dst: u8p(1)}}, {ID: 2, Act: 2, Fwd: &sysh.FwdIE{Dst: u8p(0), Ohc: u32p2(teid+1, 0xC612010A)}}}
+		if ulOhc {
+			fars[0].Fwd.Ohc = u32p2(80200, 0xC612010A)
+			fars[1] = sysh.FarIE{ID: 2, Act: 0x0C}
+		}
+		return pdrs, fars
+	}
+	pb, fb := mk(false)
+	w.nextCP++
+	B, _ := w.est(0, w.nodes[0], w.nextCP, pb, fb, nil, "forwarding-to-X")
+	pa, fa := mk(true)
+	w.nextCP++
+	A, _ := w.est(0, w.nodes[0], w.nextCP, pa, fa, nil, "uplink-far-names-X")
+	if B != nil && w.del(0, B.up, "last-forwarding-user-of-X").Cause == 1 {
+		B.dead = true
+	}
+	if A == nil {
+		return
+	}
+	if end == "del" {
+		if w.del(0, A.up, "uplink-far-names-X").Cause == 1 {
 			A.dead = true
 		}
 	} else {
